@@ -55,6 +55,8 @@ Layouts ==
     [] LayoutSet = "c09"    -> Wrap({TRUE}, {FALSE}, {FALSE}, {"fifo", "lru", "lfu", "random"}, {0, 2}, {0, 2})
     [] LayoutSet = "c10"    -> Wrap(BOOLEAN, {TRUE}, {FALSE}, {"fifo", "lru", "lfu"}, {0, 2}, {0})
     [] LayoutSet = "c11"    -> Wrap({FALSE}, {FALSE}, {TRUE}, {"fifo", "lru", "lfu"}, {0, 2}, {0, 2})
+    [] LayoutSet = "c20"    -> { L \in Wrap(BOOLEAN, {FALSE}, {FALSE}, {"fifo", "lru", "lfu"}, {0, 2}, {0, 2}) :
+                                    L.metas["f"].kind = "async" }
     [] LayoutSet = "c15"    -> Wrap({FALSE}, {FALSE}, {FALSE}, {"lru"}, {0, 2}, {0, 2})
     [] LayoutSet = "mem"    -> MemLayouts
     [] LayoutSet = "thread" -> ThreadLayouts
@@ -76,6 +78,11 @@ Next ==
            \/ \E x \in CacheNames : InvName(x)
            \/ \E x \in CacheNames, S \in SUBSET Keys : InvWith(x, S)
            \/ \E sel \in [RealNames -> SUBSET Keys] : InvAllWith(sel @@ ("nobody" :> {}))
+     \/ /\ LayoutSet = "c20"
+        /\ \/ \E n \in DOMAIN cs, k \in Keys, vd \in {0, 1} : StartSusp(n, k, vd)
+           \/ \E t \in susp, ok \in BOOLEAN : ResumeSusp(t, ok, 1, 1)
+           \/ \E t \in susp : DropSusp(t)
+           \/ \E x \in CacheNames, S \in SUBSET Keys : InvWith(x, S)
      \/ /\ LayoutSet \in {"c15"}
         /\ \E x \in CacheNames : StatsGet(x) \/ StatsReset(x)
 
@@ -90,6 +97,6 @@ Bounded ==
 
 \* statistics counters never influence behaviour: they are part of the explored state only in the
 \* layouts that check them (there they are bounded by MaxLookups)
-View == <<cfgs, metas, IF StatsInView THEN cs ELSE [n \in DOMAIN cs |-> NoStats(cs[n])], ver, pending, gs,
+View == <<cfgs, metas, IF StatsInView THEN cs ELSE [n \in DOMAIN cs |-> NoStats(cs[n])], ver, pending, susp, gs,
           IF StatsInView THEN xs ELSE <<>>, usedK, pm>>
 =============================================================================
